@@ -229,3 +229,13 @@ Lemma rot90_signed_perm :
   forallb (fun x : Z * Z => forallb (fun y : Z * Z => forallb (fun z : Z * Z =>
     signed_perm (mat_rot (fst x) (snd x) (fst y) (snd y) (fst z) (snd z))) quads) quads) quads = true.
 Proof. vm_compute. reflexivity. Qed.
+
+(* ---- Extrude's per-division 2x2 map, entries regenerated from the statements
+   of the division loop (Gen/C17Shapes, extrude_m_xx etc.): it is "scale after twist",
+   S * R, as the doc comment of Manifold::Extrude says, for symbolic
+   (sx, sy) = lerp(1, scaleTop, alpha), c = cosd(phi), s = sind(phi). *)
+Lemma extrude_map_l sx sy c s x y :
+  (extrude_m_xx sx sy c s * x + extrude_m_xy sx sy c s * y,
+   extrude_m_yx sx sy c s * x + extrude_m_yy sx sy c s * y) =
+  (sx * (c * x - s * y), sy * (s * x + c * y)).
+Proof. unfold extrude_m_xx, extrude_m_xy, extrude_m_yx, extrude_m_yy. f_equal; ring. Qed.
